@@ -1514,3 +1514,170 @@ func chainedFrom(v ssa.Value, root *ssa.Parameter, d int) bool {
 	}
 	return true
 }
+
+// attributePassesKnown (C12.R8, cited as C11.R7 and C02.R13): the rules of these properties judge the attribute list
+// pass by pass — the allow-list filter, the URL pass, the href scan, the rel passes, the crossorigin and sandbox passes.
+// Each is recognised by what it looks at: a comparison of an attribute's Key with one of the constants the sanitiser
+// handles, or a lookup of the Key in a rule table.  A loop of sanitizeAttrs that builds or edits an attribute list without
+// doing either (a de-duplication, a re-ordering, a cap on the number of attributes) is a pass the rules know nothing about:
+// it can drop or move what they established.  Likewise the list is never re-sliced (cut) once it exists.
+func attributePassesKnown(c *Ctx, rule, consequence string) {
+	R := c.R
+	fn := c.P.Func("github.com/microcosm-cc/bluemonday", "(*Policy).sanitizeAttrs")
+	if fn == nil {
+		R.Unknown(rule, "sanitizeAttrs", "(*Policy).sanitizeAttrs", "", "not found")
+		return
+	}
+	isAttrList := func(t types.Type) bool {
+		sl, ok := t.Underlying().(*types.Slice)
+		return ok && strings.HasSuffix(sl.Elem().String(), "html.Attribute")
+	}
+	known := map[string]bool{"href": true, "src": true, "cite": true, "rel": true, "target": true, "crossorigin": true, "sandbox": true, "style": true}
+	isKeyLoad := func(v ssa.Value) bool {
+		u, ok := v.(*ssa.UnOp)
+		if !ok {
+			if f, isF := v.(*ssa.Field); isF {
+				return strings.HasSuffix(f.X.Type().String(), "html.Attribute") && f.Field == 1
+			}
+			return false
+		}
+		fa, ok := u.X.(*ssa.FieldAddr)
+		return ok && pa.FieldName(fa) == "Key"
+	}
+	// natural loops by header
+	type loop struct {
+		hdr    *ssa.BasicBlock
+		blocks map[*ssa.BasicBlock]bool
+	}
+	var loops []*loop
+	for _, h := range fn.Blocks {
+		for _, p := range h.Preds {
+			if h.Dominates(p) {
+				loops = append(loops, &loop{h, model.NaturalLoop(h)})
+				break
+			}
+		}
+	}
+	edits := func(l *loop) (bool, string) {
+		for _, b := range sortedBlocks(l.blocks) {
+			for _, in := range b.Instrs {
+				switch x := in.(type) {
+				case *ssa.Call:
+					if bi, ok := x.Common().Value.(*ssa.Builtin); ok && bi.Name() == "append" && isAttrList(x.Type()) {
+						return true, c.P.Pos(x.Pos())
+					}
+				case *ssa.Store:
+					if fa, ok := x.Addr.(*ssa.FieldAddr); ok {
+						if ia, ok := fa.X.(*ssa.IndexAddr); ok && isAttrList(ia.X.Type()) {
+							return true, c.P.Pos(x.Pos())
+						}
+					}
+				}
+			}
+		}
+		return false, ""
+	}
+	recognised := func(l *loop) bool {
+		for b := range l.blocks {
+			for _, in := range b.Instrs {
+				switch x := in.(type) {
+				case *ssa.BinOp:
+					if x.Op != token.EQL && x.Op != token.NEQ {
+						continue
+					}
+					for _, pr := range [][2]ssa.Value{{x.X, x.Y}, {x.Y, x.X}} {
+						if k, ok := constString(pr[1]); ok && known[k] && isKeyLoad(pr[0]) {
+							return true
+						}
+					}
+				case *ssa.Lookup:
+					if mt, ok := x.X.Type().Underlying().(*types.Map); ok && isKeyLoad(x.Index) {
+						if sl, ok := mt.Elem().Underlying().(*types.Slice); ok && strings.HasSuffix(sl.Elem().String(), "attrPolicy") {
+							return true
+						}
+					}
+				}
+			}
+		}
+		return false
+	}
+	n := 0
+	for _, l := range loops {
+		// outermost loops only
+		outer := true
+		for _, l2 := range loops {
+			if l2 != l && l2.blocks[l.hdr] {
+				outer = false
+			}
+		}
+		if !outer {
+			continue
+		}
+		ed, where := edits(l)
+		if !ed {
+			continue
+		}
+		n++
+		R.Check(recognised(l), rule, fmt.Sprintf("pass#%d", n), "(*Policy).sanitizeAttrs: loop that builds or edits an attribute list", c.P.Pos(lastPos(l.hdr)), "looks at the attribute keys the sanitiser handles (or looks the key up in a rule table)", "a pass over the attributes that tests none of the keys the sanitiser handles and consults no rule table edits the list (at "+where+"): "+consequence)
+	}
+	R.Role(rule, "passes over the attribute list in sanitizeAttrs", n, 5)
+	// no re-slicing
+	ns := 0
+	for _, b := range fn.Blocks {
+		for _, in := range b.Instrs {
+			sl, ok := in.(*ssa.Slice)
+			if !ok || !isAttrList(sl.Type()) {
+				continue
+			}
+			if _, fresh := sl.X.(*ssa.Alloc); fresh {
+				continue // a literal list
+			}
+			ns++
+			R.Fail(rule, fmt.Sprintf("reslice#%d", ns), "(*Policy).sanitizeAttrs: the attribute list is re-sliced", c.P.Pos(sl.Pos()), "attributes are cut off an existing list: "+consequence)
+		}
+	}
+	if ns == 0 {
+		R.OK(rule, "reslice:none", "(*Policy).sanitizeAttrs: slice expressions on attribute lists", "", "none (apart from list literals)")
+	}
+}
+
+// rawOnlyUnderUnsafe: every write of raw (unescaped) token data in any arm happens under allowUnsafe.
+func rawOnlyUnderUnsafe(sc *SC, rule, consequence string) {
+	R := sc.c.R
+	U := sc.U()
+	qs := map[string]*pa.Query{}
+	n := 0
+	for i, w := range sc.S.Writes {
+		if w.Payload != "RawData" && w.Payload != "Mixed" {
+			continue
+		}
+		n++
+		key := writeKey(sc.S, i)
+		track := []*pa.F{U}
+		if w.Payload == "Mixed" && w.RawWhen != nil {
+			track = append(track, w.RawWhen)
+		}
+		qk := w.Arm + "/" + w.Payload
+		q, ok := qs[qk]
+		if !ok {
+			q, _ = sc.armQuery(w.Arm, track...)
+			qs[qk] = q
+		}
+		okW, cex := false, "arm not analysable"
+		if q != nil {
+			if st := q.StateAt(w.Call); st != nil {
+				goal := U
+				if w.Payload == "Mixed" && w.RawWhen != nil {
+					goal = pa.Implies(w.RawWhen, U)
+				}
+				okW, cex = q.Holds(st, goal)
+			} else {
+				okW = true
+			}
+		}
+		R.Check(okW, rule, key, writeDescr(w), sc.pos(w.Call), "raw data only under allowUnsafe", consequence+": ["+cex+"]")
+	}
+	if n == 0 {
+		R.OK(rule, "raw:none", "(*Policy).sanitize: writes of raw token data", "", "none")
+	}
+}
